@@ -81,6 +81,7 @@ EXPLANATION = ('one upstream call per meta tile, correct responses and exact fin
 HANG_S = 60.0
 TS = 4          # tile size in pixels
 SIG_RACE = 'response-missing-tile,stored-between-load-and-is_cached'
+SIG_CHMOD = 'lock-file-removed-between-create-and-chmod'
 
 
 def enc(c):
@@ -157,7 +158,8 @@ class World(object):
         self.clock = time.time()
         self.uncacheable = set(tuple(t) for t in conf.get('uncacheable') or [])
         self.gate_cleanup = bool(conf.get('cleanup'))     # the periodic lock directory clean-up is run and gated
-        self.lenient = self.kind != 'file' or self.vclock or bool(self.uncacheable) or self.gate_cleanup
+        self.lock_perms = conf.get('lock_perms')          # file_permissions of the tile locker (chmod of lock files gated)
+        self.lenient = self.kind != 'file' or self.vclock or bool(self.uncacheable) or self.gate_cleanup or bool(self.lock_perms)
         self.substeps = self.kind == 'file-link'
         self.uniform = self.kind == 'file-link'
         self.procs = bool(conf.get('procs'))
@@ -179,7 +181,7 @@ class World(object):
         self.caches, self.tms = [], []
         for _ in range(nworkers if self.procs else 1):
             cache = self.make_cache()
-            locker = TileLocker(self.lock_dir, self.lock_timeout, cache.lock_cache_id)
+            locker = TileLocker(self.lock_dir, self.lock_timeout, cache.lock_cache_id, file_permissions=self.lock_perms)
             tm = TileManager(self.grid, cache, [self.source], 'png', locker, image_opts=self.opts,
                              meta_size=ms, meta_buffer=0, concurrent_tile_creators=1, bulk_meta_tiles=self.bulk)
             if self.expire:
@@ -195,7 +197,7 @@ class World(object):
         self.stale = []
         self.loc = {}
         self.decoy_loc = {}
-        if self.kind not in ('sqlite', 'compact'):
+        if self.kind not in ('sqlite', 'compact', 'mbtiles'):
             for cache in self.caches:
                 self.mark_is_cached(cache)
             for z, (gw, gh) in enumerate(self.sizes):
@@ -214,6 +216,10 @@ class World(object):
         if self.kind == 'compact':
             from mapproxy.cache.compact import CompactCacheV2
             return CompactCacheV2(self.cache_dir)
+        if self.kind == 'mbtiles':
+            from mapproxy.cache.mbtiles import MBTilesCache
+            os.makedirs(self.cache_dir, exist_ok=True)
+            return MBTilesCache(os.path.join(self.cache_dir, 'tiles.mbtiles'), timeout=2)
         from mapproxy.cache.file import FileCache
         return FileCache(self.cache_dir, 'png', link_single_color_images=(self.kind == 'file-link'))
 
@@ -320,7 +326,7 @@ class World(object):
         from mapproxy.cache.tile import Tile
         out = {}
         extra = []
-        if self.kind in ('sqlite', 'compact'):
+        if self.kind in ('sqlite', 'compact', 'mbtiles'):
             try:
                 cache = self.make_cache()
                 for z, (gw, gh) in enumerate(self.sizes):
@@ -334,7 +340,7 @@ class World(object):
                                     out[(x, y, z)] = decode_image(t.source.as_image())
                                 except Exception:  # noqa
                                     out[(x, y, z)] = -4
-                if self.kind == 'sqlite':
+                if self.kind in ('sqlite', 'mbtiles'):
                     cache.cleanup()
             except Exception as ex:  # noqa
                 extra.append('unreadable %s cache: %s' % (self.kind, type(ex).__name__))
@@ -426,6 +432,9 @@ class Sched(object):
         self.weird = []
         self.oracle_fail = []
         self.results = [None] * self.m
+        self.removes = 0           # lock files removed so far (unlocks)
+        self.attempt_existed = {}  # tid -> did the lock file exist when the current lock attempt started
+        self.chmod_lost = set()    # requesters whose chmod of a lock file THEY created found it removed (known finding)
         self.timeout_ok = set()   # requesters that may end with LockTimeout
         self.wait_start = {}      # tid -> virtual clock at the first refused attempt of the current lock() call
         self.last_exists = {}  # tid -> (path, entry, exists) of the exists call of the current step
@@ -537,6 +546,56 @@ class Sched(object):
         entry['res'] = ('read', what, bool(r))
         return r
 
+    def w_inplace_open(self, path, mode, *a, **kw):
+        """a tile file opened for writing in place (the cache never does that: tiles appear by rename): the file exists,
+        empty, before its content is written"""
+        if self.tid() is None or 'w' not in mode:
+            return open(path, mode, *a, **kw)
+        entry = self.gate('wopen')
+        f = open(path, mode, *a, **kw)
+        c = self.world.coord_of(path) or (-1, -1, -1)
+        entry['res'] = ('wopen', c)
+        sched = self
+
+        class InPlace(object):
+            def write(self_, data):
+                e = sched.gate('write')
+                r = f.write(data)
+                f.flush()
+                e['res'] = ('write', c, decode_bytes(data))
+                return r
+
+            def __enter__(self_):
+                return self_
+
+            def __exit__(self_, *x):
+                f.close()
+
+            def __getattr__(self_, name):
+                return getattr(f, name)
+        return InPlace()
+
+    def w_chmod(self, path, mode):
+        """lockfile.py: os.chmod of the lock file (between its open and its flock)"""
+        if self.tid() is None or not self.world.lock_perms:
+            return os.chmod(path, mode)
+        entry = self.gate('lchmod')
+        entry['res'] = ('lchmod', os.path.basename(path))
+        try:
+            return os.chmod(path, mode)
+        except FileNotFoundError:
+            if not self.attempt_existed.get(entry['pid'], True):
+                self.chmod_lost.add(entry['pid'])
+            raise
+
+    def w_db(self, fget, cache):
+        """MBTilesCache.db: the connection of this thread is looked up (cursor / commit / ...)"""
+        if self.tid() is None or self.world.kind != 'mbtiles':
+            return fget(cache)
+        entry = self.gate('db')
+        entry['res'] = ('db',)
+        return fget(cache)
+
     def w_plain_exists(self, path):
         """os.path.exists of another cache module (sqlite: is the level file initialised?)"""
         if self.tid() is None:
@@ -611,6 +670,8 @@ class Sched(object):
             else:
                 self.weird.append('unexpected lock file %r' % (lock.lock_file,))
                 k = (-1, -1, -1)
+        self.attempt_existed[entry['pid']] = os.path.exists(lock.lock_file)
+        removes0 = self.removes
         try:
             r = real(lock)
         except LockError:
@@ -619,7 +680,9 @@ class Sched(object):
             if self.world.vclock and self.world.clock - ws >= self.world.lock_timeout and k in self.holder \
                     and self.holder[k] != entry['pid']:
                 self.timeout_ok.add(entry['pid'])
-            if k not in self.holder or self.holder[k] == entry['pid']:
+            if (k not in self.holder or self.holder[k] == entry['pid']) and self.removes == removes0:
+                # (an attempt that raced with an unlock - its lock file was removed by the owner while the attempt was
+                #  under way - fails as well and is retried: C07)
                 self.oracle_fail.append(('refused-without-holder',
                                          'lock attempt of requester %d on %r refused although no other requester holds that lock' % (entry['pid'], k)))
             raise
@@ -646,6 +709,7 @@ class Sched(object):
         if self.holder.get(k) == entry['pid']:
             del self.holder[k]
         self.holding.pop(entry['pid'], None)
+        self.removes += 1
         return os.remove(path)
 
     # requester -----------------------------------------------------------------
@@ -655,6 +719,11 @@ class Sched(object):
             try:
                 tiles = self.world.tms[tid].load_tile_coords([tuple(c) for c in self.reqs[tid]], dimensions=self.world.dims)
                 if self.world.kind == 'sqlite':
+                    self.world.tms[tid].cleanup()
+                elif self.world.kind == 'mbtiles':
+                    # end of TileManager.session(): the connections of this request are closed
+                    e = self.gate('cleanup')
+                    e['res'] = ('cleanup',)
                     self.world.tms[tid].cleanup()
                 out = []
                 for t in tiles:
@@ -790,6 +859,27 @@ class Patches(object):
                 return s.w_bundle_read(_name, _real, bundle, *a, **kw) if s else _real(bundle, *a, **kw)
             setattr(CP.BundleV2, name, wrapped_r)
 
+        import mapproxy.util.ext.lockfile as LF
+        self.LF = LF
+        self.saved['LF.os'] = LF.os
+        self.saved['MB.db'] = MB.MBTilesCache.db
+
+        def chmod(p, mode):
+            s = me.cur()
+            return s.w_chmod(p, mode) if s else real_os.chmod(p, mode)
+        LF.os = Proxy(real_os, chmod=chmod)
+        real_fget = MB.MBTilesCache.db.fget
+
+        def db_get(cache):
+            s = me.cur()
+            return s.w_db(real_fget, cache) if s else real_fget(cache)
+        MB.MBTilesCache.db = property(db_get)
+
+        def f_open(p, mode='r', *a, **kw):
+            s = me.cur()
+            return s.w_inplace_open(p, mode, *a, **kw) if s else open(p, mode, *a, **kw)
+        F.open = f_open
+
         def lisfile(p):
             s = me.cur()
             return s.w_lockdir('lisfile', real_os.path.isfile, p) if s else real_os.path.isfile(p)
@@ -846,6 +936,12 @@ class Patches(object):
         self.MB.os, self.FS.os = self.saved['MB.os'], self.saved['FS.os']
         for name, f in self.saved['CP'].items():
             setattr(self.CP.BundleV2, name, f)
+        self.LF.os = self.saved['LF.os']
+        self.MB.MBTilesCache.db = self.saved['MB.db']
+        try:
+            del self.F.open
+        except AttributeError:
+            pass
         L.FileLock._try_lock = self.saved['try']
         self.sched = None
 
@@ -1110,6 +1206,61 @@ def compact_family(rng, count):
     return out
 
 
+def inplace_family(rng, count):
+    """a reader between the creation of a tile file and the end of its write (tiles must appear atomically): requester 0 is
+    run up to a write in place - if the cache ever makes one - and stopped there while the others look"""
+    out = []
+    for v in range(count):
+        conf = {'extent': (32, 32), 'res': (8, 4, 2, 1), 'origin': rng.choice(['ll', 'ul']),
+                'meta': rng.choice([(1, 1), (2, 2), (2, 1)]), 'procs': v % 3 == 0}
+        m = rng.choice([2, 3])
+        z = rng.choice([1, 2, 3])
+        n = 2 ** z
+        t = (rng.randrange(n), rng.randrange(n), z)
+        reqs = [[t] for _ in range(m)]
+        sched = [('until', 0, 'wopen'), 0] + [i for i in range(1, m) for _ in range(6)] + [i % m for i in range(60)]
+        out.append((conf, reqs, [], sched, 'write-in-place'))
+    return out
+
+
+def lockperm_family(rng, count):
+    """tile locker with file_permissions: a waiter is inside a lock attempt (os.chmod of the lock file gated) while the
+    holder finishes and removes the lock file"""
+    out = []
+    for v in range(count):
+        conf = {'extent': (32, 32), 'res': (8, 4, 2, 1), 'origin': rng.choice(['ll', 'ul']), 'lock_perms': '644',
+                'meta': rng.choice([(1, 1), (2, 2), (2, 1)]), 'procs': v % 3 == 0}
+        m = rng.choice([2, 3])
+        z = rng.choice([1, 2, 3])
+        n = 2 ** z
+        t = (rng.randrange(n), rng.randrange(n), z)
+        reqs = [[t] for _ in range(m)]
+        if v % 2 == 0:
+            sched = [('until', 0, 'fetch'), ('until', 1, 'lock'), 1] + [0] * 14 + [i % m for i in range(60)]
+        else:
+            sched = [('until', 0, 'fetch')] + gen_schedule(rng, m, 80)
+        out.append((conf, reqs, [], sched, 'lock-file-permissions'))
+    return out
+
+
+def mbtiles_family(rng, count):
+    """one MBTilesCache object shared by the threads of a process: requester 0 has finished its request and is about to
+    leave its session (cleanup) while requester 1 is at one of the points where it looks up its connection"""
+    out = []
+    for v in range(count):
+        conf = {'extent': (32, 32), 'res': (8, 4, 2, 1), 'origin': rng.choice(['ll', 'ul']), 'kind': 'mbtiles',
+                'meta': rng.choice([(1, 1), (2, 2)]), 'procs': False}
+        z = rng.choice([2, 3])
+        n = 2 ** z
+        cells = [(x, y, z) for x in range(0, n, 2) for y in range(0, n, 2)]
+        a, b = rng.sample(cells, 2)
+        reqs = [[a], [b]]
+        k = v % 12
+        sched = [('until', 0, 'cleanup')] + [1] * k + [0] + [1] * 40
+        out.append((conf, reqs, [], sched, 'mbtiles-session-cleanup'))
+    return out
+
+
 def sqlite_family(rng, count):
     """sqlite cache (one MBTiles file per level, created on first use), every requester with its own cache objects like a
     worker process: the first requests of a level initialise its file concurrently"""
@@ -1160,6 +1311,8 @@ def corpus_cases():
                 conf['uncacheable'] = [tuple(t) for t in d['conf']['uncacheable']]
             if d['conf'].get('cleanup'):
                 conf['cleanup'] = True
+            if d['conf'].get('lock_perms'):
+                conf['lock_perms'] = d['conf']['lock_perms']
             if 'stale' in d:
                 conf['stale'] = [tuple(t) for t in d['stale']]
             out.append((conf, [[tuple(t) for t in r] for r in d['requests']], [tuple(t) for t in d.get('initial', [])],
@@ -1277,6 +1430,10 @@ def oracle(world, s, reqs, initial, hang, final, extra, left):
         elif r[0] == 'raised':
             if r[1] == 'LockTimeout' and tid in s.timeout_ok:
                 continue        # waited for the whole lock timeout while another requester held the lock
+            if r[1] == 'FileNotFoundError' and tid in s.chmod_lost:
+                out.append((SIG_CHMOD, 'requester %d created a lock file, another requester locked, used and removed it before '
+                            'the creator set its permissions: os.chmod fails and the request dies with %s' % (tid, r[1])))
+                continue
             out.append(('unexpected-exception', 'requester %d raised %s: %s' % (tid, r[1], r[2])))
         else:
             got = [kv[0] for kv in r[1]]
@@ -1372,6 +1529,9 @@ def run_threads(ctx, reload_flag):
     todo += cleanup_family(rng, ctx.n(20, 150))
     todo += uncacheable_family(rng, ctx.n(30, 200))
     todo += compact_family(rng, ctx.n(40, 300))
+    todo += inplace_family(rng, ctx.n(12, 100))
+    todo += lockperm_family(rng, ctx.n(20, 150))
+    todo += mbtiles_family(rng, ctx.n(24, 144))
 
     terms, descr = [], []
     reported = set()
@@ -1397,7 +1557,7 @@ def run_threads(ctx, reload_flag):
                                               'kind': conf.get('kind', 'file'), 'bulk': bool(conf.get('bulk')),
                                               'lock_timeout': conf.get('lock_timeout'),
                                               'uncacheable': [list(t) for t in conf.get('uncacheable') or []],
-                                              'cleanup': bool(conf.get('cleanup'))},
+                                              'cleanup': bool(conf.get('cleanup')), 'lock_perms': conf.get('lock_perms')},
                    'stale': [list(t) for t in world.stale],
                    'requests': [[list(t) for t in r] for r in reqs], 'initial': [list(t) for t in initial],
                    'schedule': list(schedule), 'trace': compact_trace(trace),
@@ -1408,7 +1568,7 @@ def run_threads(ctx, reload_flag):
                      {'conf': rep['conf'], 'requests': rep['requests'], 'initial': rep['initial'], 'steps': len(trace),
                       'trace_head': compact_trace(trace[:30])})
             ctx.count('origin=' + origin.split(':')[0])
-            ctx.count('kind=' + world.kind + (',uncacheable-tile' if world.uncacheable else '') + (',lockdir-cleanup' if world.gate_cleanup else '') + (',bulk-meta-tiles' if world.bulk else '') + (',lock-timeouts' if world.vclock else '') + (',own-objects-per-requester' if world.procs else '') + (',dimensions' if world.dims else ''))
+            ctx.count('kind=' + world.kind + (',lock-file-permissions' if world.lock_perms else '') + (',uncacheable-tile' if world.uncacheable else '') + (',lockdir-cleanup' if world.gate_cleanup else '') + (',bulk-meta-tiles' if world.bulk else '') + (',lock-timeouts' if world.vclock else '') + (',own-objects-per-requester' if world.procs else '') + (',dimensions' if world.dims else ''))
             ctx.count('mode=' + ('meta' if world.meta else 'single') + (',expire' if world.expire else ''))
             ctx.count('expired-tiles', len(world.stale))
             ctx.count('requesters=%d' % len(reqs))
